@@ -57,6 +57,13 @@ def main():
         rc_clean, o = sh([PY, demo], wt, timeout=600)
         meta["demo_on_clean_tree"] = {"exit": rc_clean, "tail": o.strip().splitlines()[-2:]}
         rc_apply, o = sh(["git", "apply", patch], wt)
+        if rc_apply != 0:
+            # the worktree may have been moved onto the repaired HEAD: fall back to a three-way merge of the patch
+            rc_apply, o = sh(["git", "apply", "--3way", patch], wt)
+            sh(["git", "reset", "-q"], wt)
+            meta["applied_with_3way"] = rc_apply == 0
+        _, hd = sh(["git", "rev-parse", "--short", "HEAD"], wt)
+        meta["base_commit"] = hd.strip()
         meta["patch_applies"] = rc_apply == 0
         if rc_apply != 0:
             meta["apply_error"] = o[-300:]
